@@ -66,6 +66,10 @@ var c15Ignores = []string{
 	"LABEL|PROPERTY|UNDEFINED",  // matches nothing unless another pattern's (?i) leaks into it
 	"\\Qa.b",                    // unterminated quoting: literal text, matches nothing
 	"could not parse as YAML",   // the diagnostic of a file that is not YAML at all
+	"^.*$",                      // anchored at both ends: matches every message, and only the message
+	"unknown\\. available labels are .*\"$",
+	"[a-z\")]$",
+	"\\]$",                       // no message ends with a bracket
 	" is",                       // white space at the edge of a pattern is part of the pattern
 	"label ",
 	"unknown\\. ",
@@ -88,6 +92,14 @@ func genC15Config(c *Chooser) (cfg string, entries map[string][]string, order []
 			fmt.Fprintf(&b, "  %q:\n    ignore:\n", g)
 			m := 1 + c.Int("world.nign", 3)
 			for j := 0; j < m; j++ {
+				if c.Weighted("world.rawitem", 1, 12) {
+					// list items written without quotes whose text YAML would read as null: for the
+					// pattern list they are the patterns "null", "~" and "" (which matches everything)
+					raw := []string{"null", "~", ""}[c.Int("world.rawitemkind", 3)]
+					fmt.Fprintf(&b, "      - %s\n", raw)
+					entries[g] = append(entries[g], raw)
+					continue
+				}
 				p := c15Ignores[c.Int("world.ign", len(c15Ignores))]
 				fmt.Fprintf(&b, "      - %s\n", yamlSingleQuote(p))
 				entries[g] = append(entries[g], p)
@@ -240,6 +252,12 @@ func (c15) Eval(c *Chooser, env *Env) *Outcome {
 	if mode == 2 && !inRepo {
 		mode = 0
 	}
+	if mode == 2 && cwd == root && c.Weighted("world.cwdvialink", 1, 6) {
+		// the working directory is the repository root reached through a symbolic link
+		disk.Symlink("/w/lnk-to-root", root)
+		cwd = "/w/lnk-to-root"
+		o.probe("cwd_through_a_directory_link", 1)
+	}
 	lintFiles := files
 	if mode == 1 || mode == 4 {
 		lintFiles = files[:1]
@@ -264,7 +282,7 @@ func (c15) Eval(c *Chooser, env *Env) *Outcome {
 		lf = append(lf, sib+"/.github/workflows/a0.yml")
 		lintFiles = append(lf, lintFiles[at:]...)
 	}
-	spellKind := c.Int("world.spelling", 4) // 0 relative, 1 ./relative, 2 absolute, 3 with ..
+	spellKind := c.Int("world.spelling", 5) // 0 relative, 1 ./relative, 2 absolute, 3 with .., 4 absolute with /./, // and dir/..
 	var args []string
 	for _, p := range cli {
 		args = append(args, "-ignore", p)
@@ -279,8 +297,11 @@ func (c15) Eval(c *Chooser, env *Env) *Outcome {
 	var spelled []string
 	if mode != 2 {
 		for _, f := range lintFiles {
-			s := spell(f, cwd, spellKind != 2)
+			s := spell(f, cwd, spellKind != 2 && spellKind != 4)
 			switch spellKind {
+			case 4:
+				d := path.Dir(s)
+				s = path.Dir(d) + "/./" + path.Base(d) + "//../" + path.Base(d) + "/" + path.Base(s)
 			case 1:
 				if !strings.HasPrefix(s, "/") && !strings.HasPrefix(s, "../") {
 					s = "./" + s
@@ -458,6 +479,12 @@ func (c15) Eval(c *Chooser, env *Env) *Outcome {
 	if err != nil {
 		o.V = &Violation{Oracle: "output-parses", Class: "unparsable-output", Message: "the output of the filtered run does not parse: " + err.Error()}
 		return o
+	}
+	if cwd == "/w/lnk-to-root" {
+		// the same files, named through the link: compare them by what they are
+		for i := range got {
+			got[i].Abs = root + strings.TrimPrefix(got[i].Abs, cwd)
+		}
 	}
 	if mode == 3 {
 		// with a failing getwd printed paths are relative to "." = unknown; compare modulo the file name
